@@ -60,7 +60,10 @@ def gen_program(rng: random.Random, mapping: str, big: bool = False) -> dict:
                                               {"k": "ins", "m": "lda", "shape": "imm", "sz": "w", "e": E("DEFA")}], "e": [{"k": "data", "d": "db", "es": [E(0xD0)]}]},
             {"k": "if", "c": E("DEFB"), "t": [{"k": "block", "b": [{"k": "data", "d": "dl", "es": [E("DEFB", "*", 2), E("DEFC")]}]},
                                               {"k": "for", "v": "itD", "a": E(0), "b": E("DEFA", "&", 3), "body": [{"k": "data", "d": "db", "es": [E("itD", "+", "DEFB")]}]}]}]
-    p["prog"] = p["prog"] + tail
+    base = 0xC25000 if rom == "high" else 0x03A000
+    overlap = [{"k": "org", "e": E(base + 0x10)}, {"k": "data", "d": "db", "es": [E(0x11)] * 8},
+               {"k": "org", "e": E(base + 0x0C)}, {"k": "data", "d": "db", "es": [E(0x22)] * 8}]      # the later statement wins where blocks overlap
+    p["prog"] = p["prog"] + tail + (overlap if rng.random() < 0.5 else [])
     p["mapping"] = mapping
     return p
 
